@@ -1557,6 +1557,46 @@ def _icp_lists(ctx) -> Dict[str, List[int]]:
     return out
 
 
+def _joined_literal_prefix(S: Scope, e: ast.AST) -> Optional[str]:
+    """`sep.join(L)` where L is a list display (or a local whose one definition is one, grown afterwards by append/extend/+=):
+    the text of its leading string literals joined by sep, followed by `sep…` when more elements follow; None otherwise."""
+    e = S.single_value(e)
+    if not (isinstance(e, ast.Call) and isinstance(e.func, ast.Attribute) and e.func.attr == "join" and len(e.args) == 1):
+        return None
+    sep = S.single_value(e.func.value)
+    if not (isinstance(sep, ast.Constant) and isinstance(sep.value, str)):
+        return None
+    L = e.args[0]
+    grown = False
+    if isinstance(L, ast.Name):
+        bs = S.binds(L)
+        vals = [b for b in bs if b.kind == "value" and not b.path and b.expr is not None]
+        if len(vals) != 1 or any(b.kind not in ("value", "aug") for b in bs):
+            return None
+        grown = len(bs) > 1 or any(isinstance(c, ast.Call) and isinstance(c.func, ast.Attribute) and c.func.attr in ("append", "extend", "insert")
+                                   and isinstance(c.func.value, ast.Name) and c.func.value.id == L.id for c in walk_shallow(S.f.node))
+        if any(isinstance(c, ast.Call) and isinstance(c.func, ast.Attribute) and c.func.attr == "insert" and isinstance(c.func.value, ast.Name)
+               and c.func.value.id == L.id for c in walk_shallow(S.f.node)):
+            return None
+        L = vals[0].expr
+    while isinstance(L, ast.BinOp) and isinstance(L.op, ast.Add):
+        L, grown = L.left, True
+    while isinstance(L, ast.Call) and isinstance(L.func, ast.Name) and L.func.id in ("list", "tuple") and len(L.args) == 1:
+        L = L.args[0]
+    if not isinstance(L, (ast.List, ast.Tuple)):
+        return None
+    lead = []
+    for x in L.elts:
+        if isinstance(x, ast.Constant) and isinstance(x.value, str):
+            lead.append(x.value)
+        else:
+            grown = True
+            break
+    if not lead:
+        return None
+    return sep.value.join(lead) + (sep.value + "…" if grown else "")
+
+
 def _time_slot(ctx):
     """The forwarding `call <vf>(args(T), y, dy, ...)` line: searched in _generate_auto_files and in every other method of the
     backend class (the emission of the `func` wrapper may live in an extracted helper)."""
@@ -1564,7 +1604,15 @@ def _time_slot(ctx):
     hits = []
     funcs = [gen] + [f for f in _cls(ctx).methods.values() if f.qualname != gen.qualname and not _spliced_into(ctx, gen, f)]
     for f in funcs:
+        Sf = None
         for node, text, holes in templates_in(f.node):
+            # `call {name}({', '.join(call_args)})`: splice the literal leading elements of the joined list into the text
+            mj = re.match(r"^(\s*call ⟨\d+⟩\()⟨(\d+)⟩(.*)$", text or "")
+            if mj:
+                Sf = Sf or Scope(ctx, f)
+                lead = _joined_literal_prefix(Sf, holes[int(mj.group(2))])
+                if lead is not None:
+                    text = mj.group(1) + lead + mj.group(3)
             m = re.match(r"^\s*call ⟨\d+⟩\(\s*args\((\d+)\)\s*,\s*y\s*,\s*dy", text or "")
             if m:
                 hits.append((f, (node, int(m.group(1)), text)))
